@@ -295,7 +295,13 @@ func (x *c18Exec) ServeHTTP(w http.ResponseWriter, r *http.Request) {
 		chunks = c18Chunks(wire, 1)
 	}
 	for i, c := range chunks {
-		n, err := w.Write(c)
+		// the handler writes from a scratch buffer that it reuses straight away (io.Writer:
+		// "Write must not retain p"): bytes the response writer kept a reference to would change
+		scratch := append([]byte(nil), c...)
+		n, err := w.Write(scratch)
+		for j := range scratch {
+			scratch[j] = 0xEE
+		}
 		if n > 0 {
 			o.written = append(o.written, c[:n]...)
 		}
